@@ -1294,7 +1294,10 @@ fn segment_one(k: &mut Kernel, fd: Fd) {
             let wnd_remaining = (tcb.snd_wnd as usize).saturating_sub(in_flight);
             let fin_pending = tcb.fin_seq.map(|fs| tcb.snd_nxt == fs).unwrap_or(false);
 
-            if unsent > 0 && wnd_remaining > 0 {
+            // `mss == 0` (MTU no larger than the headers): nothing can
+            // ever be carried, and a zero-length "data" segment would
+            // not advance snd_nxt -- this loop would never end.
+            if unsent > 0 && wnd_remaining > 0 && mss > 0 {
                 let n = unsent.min(mss).min(wnd_remaining);
                 let start = in_flight;
                 let end = start + n;
